@@ -344,6 +344,14 @@ def stream_items(tier, seed, want):
                 for ab in abandoned:
                     for ct in conts:
                         add(('then', la(d), ('then', ct(ab), rest)), inp_ab, prio=True)
+        # an attempt that EMITS and then fails, abandoned by `recover_with` whose strategy then succeeds: what the attempt emitted
+        # must be gone (only the recovered error is reported)
+        for w in gen.RECOVERIES:
+            for body in [('then', E1(ANY_), B_), ('then', E1(A_), ('then', E2(ANY_), ('cfail', 3))), ('then', E1(ANY_), ('then', ANY_, B_)),
+                         ('then', ('recvia', A_, ('to', ('vnat', 9), ('any',))), B_)]:
+                add(('then', w(body), rest), inp_ab, prio=True)
+                add(('then', ('collect', 'vec', ('rep', w(body), 0, 2)), rest), inp_ab, prio=True)
+                add(('or', ('then', w(body), ('cfail', 4)), rest), inp_ab, prio=True)
         # two emitters at different nodes (nested, in sequence, across a choice): the ORDER of the reported errors is the order
         # of emission
         for g in base[:150 if tier == 'quick' else 1500]:
